@@ -1,1 +1,483 @@
 // Kani contract harnesses for /repo/arrow-buffer/src/bigint/mod.rs (child module: sees private items via super::)
+//
+// i256 on its limbs (low: u128, high: i128).  These are the Kani PAIRS of the Verus units on the same
+// functions.  Spec side: support/i256_spec.rs - four base-2^64 digits, top digit signed, schoolbook
+// carries in 128-bit primitives (independent of the (u128, i128) overflowing_add + sign-rule code).
+// Values are built and read through the private fields directly (child module), so no unit depends
+// on from_parts / to_parts, which have their own unit.
+// Stubs: bigint::div::div_rem_word (x86-64 inline asm `div`, unsupported by Kani) -> its own portable
+// cfg(not(x86_64)) body, i.e. the definition of the instruction: (hi:lo) / d and (hi:lo) % d in u128.
+use super::*;
+#[path = "/verif/kani/support/i256_spec.rs"]
+mod i256_spec;
+use i256_spec::*;
+
+fn any_i256() -> i256 { i256 { low: kani::any(), high: kani::any() } }
+fn dg(x: i256) -> D4 { digits(x.low, x.high) }
+fn of(d: D4) -> i256 { let (low, high) = parts(d); i256 { low, high } }
+
+// Contract (C12): from_parts(lo, hi) / to_parts are inverse bijections between i256 and its limb
+// pair; the digit view used by every other unit is consistent with them (digits -> parts -> digits is
+// the identity); as_digits / from_digits (private helpers of div_rem) are exactly that digit view;
+// constants: ZERO = 0, ONE = 1, MINUS_ONE = -1 (all ones), MIN = -2^255, MAX = 2^255 - 1.
+// @unit name=i256_parts props=C12 kind=complete fns=i256::from_parts,i256::to_parts,i256::as_digits,i256::from_digits
+#[kani::proof]
+fn i256_parts() {
+    let (lo, hi): (u128, i128) = (kani::any(), kani::any());
+    let x = i256::from_parts(lo, hi);
+    assert!(x.low == lo && x.high == hi);
+    assert!(x.to_parts() == (lo, hi));
+    assert!(parts(digits(lo, hi)) == (lo, hi));
+    let d: D4 = kani::any();
+    let (l2, h2) = parts(d);
+    assert!(digits(l2, h2) == d);
+    assert!(x.as_digits() == digits(lo, hi));
+    assert!(i256::from_digits(d) == of(d));
+    assert!(dg(i256::ZERO) == ZERO4 && dg(i256::ONE) == [1, 0, 0, 0] && dg(i256::MINUS_ONE) == [u64::MAX; 4]);
+    assert!(dg(i256::MIN) == MIN4 && dg(i256::MAX) == MAX4);
+    kani::cover!(hi < 0);
+    kani::cover!(hi > 0 && lo > u64::MAX as u128);
+}
+
+// Contract (C12): from_i128(v) is the sign extension of v (value preserved); to_i128(x) = Some(v) <=>
+// the value of x lies in [i128::MIN, i128::MAX] (i.e. x is the sign extension of its low 128 bits),
+// and then v is that value; to_i128(from_i128(v)) = Some(v); as_i128(x) = the low 128 bits (wrapping).
+// From<i8..i128> and AsPrimitive<i256> for i8..u64 agree with from_i128 of the widened value.
+// ToPrimitive::to_u64: Some(v) <=> 0 <= value < 2^64, and then v is the value.
+// @unit name=i256_i128_conv props=C12,C13 kind=complete fns=i256::from_i128,i256::to_i128,i256::as_i128,ToPrimitive<i256>::to_u64
+#[kani::proof]
+fn i256_i128_conv() {
+    let v: i128 = kani::any();
+    let x = i256::from_i128(v);
+    assert!(dg(x) == from_i128_spec(v));
+    assert!(x.to_i128() == Some(v));
+    assert!(x.as_i128() == v);
+    let y = any_i256();
+    let d = dg(y);
+    let fits128 = d == from_i128_spec(y.low as i128);
+    match y.to_i128() {
+        Some(r) => assert!(fits128 && r == y.low as i128),
+        None => assert!(!fits128),
+    }
+    assert!(y.as_i128() == y.low as i128);
+    // to_u64: the value fits iff digits 1..3 are zero
+    let fits_u64 = d[1] == 0 && d[2] == 0 && d[3] == 0;
+    match y.to_u64() {
+        Some(r) => assert!(fits_u64 && r == d[0]),
+        None => assert!(!fits_u64),
+    }
+    let (a8, a16, a32, a64): (i8, i16, i32, i64) = (kani::any(), kani::any(), kani::any(), kani::any());
+    assert!(i256::from(a8) == i256::from_i128(a8 as i128) && i256::from(a16) == i256::from_i128(a16 as i128));
+    assert!(i256::from(a32) == i256::from_i128(a32 as i128) && i256::from(a64) == i256::from_i128(a64 as i128));
+    assert!(i256::from(v) == x);
+    let (u8_, u64_): (u8, u64) = (kani::any(), kani::any());
+    assert!(AsPrimitive::<i256>::as_(u8_) == i256::from_i128(u8_ as i128));
+    assert!(AsPrimitive::<i256>::as_(u64_) == i256::from_i128(u64_ as i128));
+    assert!(AsPrimitive::<i256>::as_(a64) == i256::from_i128(a64 as i128));
+    kani::cover!(fits128 && y.high == -1);
+    kani::cover!(!fits128 && y.high == -1);
+    kani::cover!(!fits128 && y.high == 0);
+    kani::cover!(fits_u64 && d[0] > i64::MAX as u64);
+    kani::cover!(fits128 && !fits_u64);
+}
+
+// Contract (C13): ToPrimitive::to_i64(x) = Some(v) <=> the value of x lies in [i64::MIN, i64::MAX]
+// (digits 1..3 are the sign extension of digit 0), and then v is that value; None otherwise.
+// *** FAILS ON THE UNCHANGED TREE - genuine defect (see REPORT.md, D1): the second range test re-checks
+// `self.high` (the i128 limb) instead of the upper 64 bits of the low limb, so e.g. the value 2^64
+// (low = 1 << 64, high = 0) gives Some(0) and 2^64 + 5 gives Some(5) instead of None (confirmed natively).
+// @unit name=i256_to_i64 props=C13 kind=complete fns=ToPrimitive<i256>::to_i64 tier=thorough was_quick=1 confirmed=0
+#[kani::proof]
+fn i256_to_i64() {
+    let y = any_i256();
+    let d = dg(y);
+    let ext = if (d[0] as i64) < 0 { u64::MAX } else { 0 };
+    let fits_i64 = d[1] == ext && d[2] == ext && d[3] == ext;
+    match y.to_i64() {
+        Some(r) => assert!(fits_i64 && r == d[0] as i64),
+        None => assert!(!fits_i64),
+    }
+    kani::cover!(fits_i64 && (d[0] as i64) < 0);
+    kani::cover!(!fits_i64 && y.high == 0);
+}
+
+// Contract (C12): for all a, b: i256, with (s, ovf) = exact a + b on the digit model (s = sum mod 2^256,
+// ovf <=> exact sum outside [-2^255, 2^255)):  wrapping_add(a,b) = s;  overflowing_add(a,b) = (s, ovf);
+// checked_add(a,b) = Some(s) <=> !ovf, None <=> ovf;  num_traits CheckedAdd / WrappingAdd agree;
+// SaturatingAdd = s if !ovf, else MIN if the exact sum is negative (both operands negative) else MAX.
+// When both operands are sign extensions of i128 values the sum is also compared with i128 arithmetic.
+// @unit name=i256_add_pair props=C12 kind=complete fns=i256::wrapping_add,i256::overflowing_add,i256::checked_add,SaturatingAdd<i256>::saturating_add
+#[kani::proof]
+fn i256_add_pair() {
+    let (a, b) = (any_i256(), any_i256());
+    let (s, ovf) = add_spec(dg(a), dg(b));
+    assert!(dg(a.wrapping_add(b)) == s);
+    let (r, o) = a.overflowing_add(b);
+    assert!(dg(r) == s && o == ovf);
+    match a.checked_add(b) {
+        Some(r) => assert!(!ovf && dg(r) == s),
+        None => assert!(ovf),
+    }
+    assert!(CheckedAdd::checked_add(&a, &b) == a.checked_add(b));
+    assert!(WrappingAdd::wrapping_add(&a, &b) == a.wrapping_add(b));
+    let sat = a.saturating_add(&b);
+    assert!(dg(sat) == if !ovf { s } else if is_neg(dg(a)) { MIN4 } else { MAX4 });
+    if ovf { assert!(is_neg(dg(a)) == is_neg(dg(b))); }
+    // agreement with 128-bit arithmetic on embedded operands (never overflows 256 bits)
+    let (x, y): (i128, i128) = (kani::any(), kani::any());
+    let e = i256::from_i128(x).checked_add(i256::from_i128(y));
+    match x.checked_add(y) {
+        Some(z) => assert!(e == Some(i256::from_i128(z))),
+        None => assert!(e.is_some() && e.unwrap().to_i128().is_none()),
+    }
+    kani::cover!(ovf && is_neg(dg(a)));
+    kani::cover!(ovf && !is_neg(dg(a)));
+    kani::cover!(!ovf && a.low.checked_add(b.low).is_none()); // carry out of the low limb
+    kani::cover!(!ovf && is_neg(dg(a)) != is_neg(dg(b)));
+}
+
+// Contract (C12): for all a, b: i256, with (s, ovf) = exact a - b on the digit model: wrapping_sub = s;
+// overflowing_sub = (s, ovf); checked_sub = Some(s) <=> !ovf; num_traits CheckedSub / WrappingSub agree;
+// SaturatingSub = s if !ovf, else MIN if the exact difference is negative (a negative) else MAX.
+// @unit name=i256_sub_pair props=C12 kind=complete fns=i256::wrapping_sub,i256::overflowing_sub,i256::checked_sub,SaturatingSub<i256>::saturating_sub
+#[kani::proof]
+fn i256_sub_pair() {
+    let (a, b) = (any_i256(), any_i256());
+    let (s, ovf) = sub_spec(dg(a), dg(b));
+    assert!(dg(a.wrapping_sub(b)) == s);
+    let (r, o) = a.overflowing_sub(b);
+    assert!(dg(r) == s && o == ovf);
+    match a.checked_sub(b) {
+        Some(r) => assert!(!ovf && dg(r) == s),
+        None => assert!(ovf),
+    }
+    assert!(CheckedSub::checked_sub(&a, &b) == a.checked_sub(b));
+    assert!(WrappingSub::wrapping_sub(&a, &b) == a.wrapping_sub(b));
+    let sat = a.saturating_sub(&b);
+    assert!(dg(sat) == if !ovf { s } else if is_neg(dg(a)) { MIN4 } else { MAX4 });
+    if ovf { assert!(is_neg(dg(a)) != is_neg(dg(b))); }
+    // a - b is the inverse of addition: (a - b) + b = a mod 2^256 (on the spec and on the code)
+    assert!(add_spec(s, dg(b)).0 == dg(a));
+    let (x, y): (i128, i128) = (kani::any(), kani::any());
+    let e = i256::from_i128(x).checked_sub(i256::from_i128(y));
+    match x.checked_sub(y) {
+        Some(z) => assert!(e == Some(i256::from_i128(z))),
+        None => assert!(e.is_some() && e.unwrap().to_i128().is_none()),
+    }
+    kani::cover!(ovf && is_neg(dg(a)));
+    kani::cover!(ovf && !is_neg(dg(a)));
+    kani::cover!(!ovf && a.low < b.low); // borrow out of the low limb
+}
+
+// Contract (C12): for all a: i256: wrapping_neg(a) = (0 - a) mod 2^256; checked_neg(a) = None <=> a = MIN
+// (the only value whose negation is not representable), else Some(0 - a); wrapping_abs(a) = a if a >= 0
+// else wrapping_neg(a); checked_abs(a) = None <=> a = MIN; is_negative <=> top bit; is_positive <=>
+// a > 0; signum in {-1, 0, 1} accordingly; num_traits Signed / CheckedNeg / WrappingNeg / Zero / One agree.
+// @unit name=i256_neg_abs props=C12 kind=complete fns=i256::wrapping_neg,i256::checked_neg,i256::wrapping_abs,i256::checked_abs,i256::is_negative,i256::is_positive,i256::signum
+#[kani::proof]
+fn i256_neg_abs() {
+    let a = any_i256();
+    let d = dg(a);
+    let (n, novf) = sub_spec(ZERO4, d);
+    assert!(novf == (d == MIN4));
+    assert!(dg(a.wrapping_neg()) == n);
+    match a.checked_neg() {
+        Some(r) => assert!(!novf && dg(r) == n),
+        None => assert!(novf),
+    }
+    let neg = is_neg(d);
+    assert!(a.is_negative() == neg);
+    assert!(a.is_positive() == (!neg && d != ZERO4));
+    assert!(dg(a.wrapping_abs()) == if neg { n } else { d });
+    match a.checked_abs() {
+        Some(r) => assert!(d != MIN4 && dg(r) == if neg { n } else { d } && !r.is_negative()),
+        None => assert!(d == MIN4),
+    }
+    assert!(a.signum() == if neg { i256::MINUS_ONE } else if d == ZERO4 { i256::ZERO } else { i256::ONE });
+    assert!(CheckedNeg::checked_neg(&a) == a.checked_neg() && WrappingNeg::wrapping_neg(&a) == a.wrapping_neg());
+    assert!(Signed::abs(&a) == a.wrapping_abs() && Signed::is_negative(&a) == neg && Signed::signum(&a) == a.signum());
+    assert!(Zero::is_zero(&a) == (d == ZERO4) && One::is_one(&a) == (d == [1, 0, 0, 0]));
+    kani::cover!(novf);
+    kani::cover!(neg && !novf && a.low == 0);
+    kani::cover!(!neg && d != ZERO4);
+    kani::cover!(d == ZERO4);
+}
+
+// Contract (C10): for all a, b: i256: cmp(a,b) is the mathematical order of the two 256-bit two's
+// complement values (signed most significant digit first, then the unsigned digits downwards);
+// partial_cmp = Some(cmp); == <=> all digits equal <=> cmp = Equal; the derived operators < <= > >=
+// are its projections; the embedding from_i128 is strictly monotone (order of i128 values preserved).
+// @unit name=i256_ord props=C10 kind=complete fns=Ord<i256>::cmp,PartialOrd<i256>::partial_cmp,i256::is_eq
+#[kani::proof]
+#[kani::unwind(34)]
+fn i256_ord() {
+    let (a, b) = (any_i256(), any_i256());
+    let want = cmp_spec(dg(a), dg(b));
+    assert!(a.cmp(&b) == want);
+    assert!(a.partial_cmp(&b) == Some(want));
+    assert!((a == b) == (want == Ordering::Equal) && (a == b) == (dg(a) == dg(b)));
+    assert!(a.is_eq(b) == (a == b));
+    assert!((a < b) == (want == Ordering::Less) && (a <= b) == (want != Ordering::Greater));
+    assert!((a > b) == (want == Ordering::Greater) && (a >= b) == (want != Ordering::Less));
+    let (x, y): (i128, i128) = (kani::any(), kani::any());
+    let want128 = if x < y { Ordering::Less } else if x == y { Ordering::Equal } else { Ordering::Greater };
+    assert!(i256::from_i128(x).cmp(&i256::from_i128(y)) == want128);
+    assert!(i256::MIN.cmp(&a) != Ordering::Greater && i256::MAX.cmp(&a) != Ordering::Less);
+    kani::cover!(want == Ordering::Less && a.high == b.high);
+    kani::cover!(want == Ordering::Greater && a.high < 0 && b.high < 0);
+    kani::cover!(want == Ordering::Less && a.high < 0 && b.high >= 0 && a.low > b.low);
+    kani::cover!(want == Ordering::Equal);
+}
+
+// Contract (C12/C13): to_le_bytes(x)[k] is byte k (little endian) of the 256-bit pattern, i.e. byte
+// (k mod 8) of digit k / 8; to_be_bytes is its reversal; from_le_bytes / from_be_bytes are their
+// inverses in both directions (bytes -> value -> bytes and value -> bytes -> value), for all inputs.
+// @unit name=i256_bytes props=C12,C13 kind=complete fns=i256::to_le_bytes,i256::to_be_bytes,i256::from_le_bytes,i256::from_be_bytes,split_array
+#[kani::proof]
+#[kani::unwind(34)]
+fn i256_bytes() {
+    let x = any_i256();
+    let d = dg(x);
+    let le = x.to_le_bytes();
+    let be = x.to_be_bytes();
+    let k: usize = kani::any();
+    kani::assume(k < 32);
+    assert!(le[k] == (d[k / 8] >> (8 * (k % 8))) as u8);
+    assert!(be[k] == le[31 - k]);
+    assert!(i256::from_le_bytes(le) == x && i256::from_be_bytes(be) == x);
+    let b: [u8; 32] = kani::any();
+    let y = i256::from_le_bytes(b);
+    assert!(y.to_le_bytes() == b);
+    let z = i256::from_be_bytes(b);
+    assert!(z.to_be_bytes() == b);
+    assert!((dg(y)[k / 8] >> (8 * (k % 8))) as u8 == b[k]);
+    assert!((dg(z)[k / 8] >> (8 * (k % 8))) as u8 == b[31 - k]);
+    kani::cover!(k == 31 && le[k] == 0x80);
+    kani::cover!(k == 0);
+    kani::cover!(k == 16);
+}
+
+// Contract (C12): bit level.  For all x, y: i256, all shift counts n: u8 (0..=255) and every bit index
+// i < 256:  bit i of (x << n) = bit (i-n) of x if i >= n else 0;  bit i of (x >> n) = bit (i+n) of x if
+// i+n < 256 else the sign bit (arithmetic shift);  & | ^ ! act bit-wise;  the wider shift operand types
+// and WrappingShl/Shr (count taken mod 256) / CheckedShl/Shr (None <=> count > 255) reduce to the u8
+// form;  leading_zeros / trailing_zeros count the zero bits above the highest / below the lowest set
+// bit (256 for zero).
+// @unit name=i256_bits props=C12 kind=complete fns=Shl<u8>::shl,Shr<u8>::shr,BitAnd<i256>::bitand,BitOr<i256>::bitor,BitXor<i256>::bitxor,Not<i256>::not,i256::leading_zeros,i256::trailing_zeros,WrappingShl<i256>::wrapping_shl,CheckedShl<i256>::checked_shl tier=thorough was_quick=1 confirmed=0
+#[kani::proof]
+fn i256_bits() {
+    let (x, y) = (any_i256(), any_i256());
+    let n: u8 = kani::any();
+    let i: u32 = kani::any();
+    kani::assume(i < 256);
+    let (dx, dy) = (dg(x), dg(y));
+    let l = dg(x << n);
+    assert!(bit256(l, i) == if i >= n as u32 { bit256(dx, i - n as u32) } else { false });
+    let r = dg(x >> n);
+    assert!(bit256(r, i) == if i + (n as u32) < 256 { bit256(dx, i + n as u32) } else { is_neg(dx) });
+    assert!(bit256(dg(x & y), i) == (bit256(dx, i) & bit256(dy, i)));
+    assert!(bit256(dg(x | y), i) == (bit256(dx, i) | bit256(dy, i)));
+    assert!(bit256(dg(x ^ y), i) == (bit256(dx, i) ^ bit256(dy, i)));
+    assert!(bit256(dg(!x), i) == !bit256(dx, i));
+    let m: u32 = kani::any();
+    assert!(x.wrapping_shl(m) == x << (m as u8) && x.wrapping_shr(m) == x >> (m as u8));
+    assert!(x.checked_shl(m) == if m <= 255 { Some(x << (m as u8)) } else { None });
+    assert!(x.checked_shr(m) == if m <= 255 { Some(x >> (m as u8)) } else { None });
+    if m <= 255 { assert!(x << m == x << (m as u8) && x >> (m as i64) == x >> (m as u8)); }
+    let lz = x.leading_zeros();
+    assert!(lz <= 256 && (lz == 256) == (dx == ZERO4));
+    if i < lz { assert!(!bit256(dx, 255 - i)); }
+    if lz < 256 { assert!(bit256(dx, 255 - lz)); }
+    let tz = x.trailing_zeros();
+    assert!(tz <= 256 && (tz == 256) == (dx == ZERO4));
+    if i < tz { assert!(!bit256(dx, i)); }
+    if tz < 256 { assert!(bit256(dx, tz)); }
+    kani::cover!(n >= 128 && i >= n as u32 && bit256(l, i));
+    kani::cover!(n > 0 && n < 128 && i >= 128 && i - (n as u32) < 128 && bit256(l, i));
+    kani::cover!(n > 128 && i + (n as u32) >= 256 && bit256(r, i));
+    kani::cover!(n > 0 && n < 128 && i < 128 && i + (n as u32) >= 128 && bit256(r, i));
+    kani::cover!(lz > 128 && lz < 256);
+    kani::cover!(tz > 128 && tz < 256);
+}
+
+// Contract (C12), bounded: mulx(a, b) for a, b < 2^64 returns (low, high) = (a*b, 0) with a*b the exact
+// product in u128 (the 128 x 128 -> 256 bit product of arbitrary operands is out of reach for the
+// solver).  Pinned full-width points: mulx(2^127, 2) = (0, 1); mulx(MAX, MAX) = (1, MAX - 1).
+// @unit name=i256_mulx_64 props=C12 kind=bounded bound=operands<2^64 fns=mulx timeout=900 tier=thorough was_quick=1 confirmed=0
+#[kani::proof]
+fn i256_mulx_64() {
+    let (a, b): (u64, u64) = (kani::any(), kani::any());
+    let (lo, hi) = mulx(a as u128, b as u128);
+    assert!(lo == a as u128 * b as u128 && hi == 0);
+    assert!(mulx(1 << 127, 2) == (0, 1));
+    assert!(mulx(u128::MAX, u128::MAX) == (1, u128::MAX - 1));
+    kani::cover!(lo > u64::MAX as u128);
+}
+
+// Contract (C12), bounded: for operands that are sign extensions of i64 values a, b (|value| < 2^63):
+// checked_mul = Some(a*b) and wrapping_mul = a*b with a*b the exact product in i128 (always
+// representable); num_traits CheckedMul / WrappingMul agree.  Overflow detection pinned on full-width
+// constants: MIN * -1 = None, MAX * 2 = None, 2^128 * 2^127 = None (= 2^255), 2^128 * -(2^127) =
+// Some(MIN), 0 * MIN = Some(0), and wrapping_mul(MIN, -1) = MIN.
+// @unit name=i256_mul_small props=C12 kind=bounded bound=operands_in_i64_range fns=i256::checked_mul,i256::wrapping_mul timeout=900 tier=thorough was_quick=1 confirmed=0
+#[kani::proof]
+fn i256_mul_small() {
+    let (a, b): (i64, i64) = (kani::any(), kani::any());
+    let (x, y) = (i256::from_i128(a as i128), i256::from_i128(b as i128));
+    let p = i256::from_i128(a as i128 * b as i128);
+    assert!(x.checked_mul(y) == Some(p));
+    assert!(x.wrapping_mul(y) == p);
+    assert!(CheckedMul::checked_mul(&x, &y) == Some(p) && WrappingMul::wrapping_mul(&x, &y) == p);
+    let two128 = i256 { low: 0, high: 1 };
+    let two127 = i256 { low: 1 << 127, high: 0 };
+    assert!(i256::MIN.checked_mul(i256::MINUS_ONE).is_none() && i256::MIN.wrapping_mul(i256::MINUS_ONE) == i256::MIN);
+    assert!(i256::MAX.checked_mul(i256::from_i128(2)).is_none());
+    assert!(two128.checked_mul(two127).is_none());
+    assert!(two128.checked_mul(two127.wrapping_neg()) == Some(i256::MIN));
+    assert!(i256::ZERO.checked_mul(i256::MIN) == Some(i256::ZERO));
+    kani::cover!(a < -1 && b > 1);
+    kani::cover!(a < -1 && b < -1 && (a as i128 * b as i128) > i64::MAX as i128);
+}
+
+// Contract (C12): multiplication by a power of two, FULL-WIDTH first operand: for all x: i256 and
+// k <= 254: wrapping_mul(x, 2^k) = x << k (product mod 2^256), and checked_mul(x, 2^k) = Some(x << k) <=>
+// no significant bit is lost, i.e. (x << k) >> k = x (arithmetic shifts, specified bit-wise in
+// i256_bits), None otherwise.  This exercises the overflow detection of checked_mul on operands with
+// non-zero high limbs.
+// @unit name=i256_mul_pow2 props=C12 kind=complete fns=i256::checked_mul,i256::wrapping_mul timeout=900 tier=thorough was_quick=1 confirmed=0
+#[kani::proof]
+fn i256_mul_pow2() {
+    let x = any_i256();
+    let k: u8 = kani::any();
+    kani::assume(k <= 254);
+    let p = i256::ONE << k;
+    let shifted = x << k;
+    let exact = (shifted >> k) == x;
+    assert!(x.wrapping_mul(p) == shifted);
+    assert!(p.wrapping_mul(x) == shifted);
+    match x.checked_mul(p) {
+        Some(r) => assert!(exact && r == shifted),
+        None => assert!(!exact),
+    }
+    assert!(p.checked_mul(x) == x.checked_mul(p));
+    kani::cover!(exact && k > 130 && x.is_negative());
+    kani::cover!(exact && k > 3 && k < 100 && x.high > 1);
+    kani::cover!(!exact && x.is_negative());
+    kani::cover!(!exact && !x.is_negative() && x.high == 0);
+}
+
+/// Stub for bigint::div::div_rem_word (x86-64 inline asm): the definition of the `div` instruction,
+/// i.e. the function's own portable cfg(not(target_arch = "x86_64")) body; for hi = 0 the same
+/// quotient / remainder are formed in 64 bits (identical values, cheaper circuit).
+fn div_rem_word_def(hi: u64, lo: u64, divisor: u64) -> (u64, u64) {
+    if hi == 0 { return (lo / divisor, lo % divisor); }
+    let x = (u128::from(hi) << 64) + u128::from(lo);
+    let y = u128::from(divisor);
+    ((x / y) as u64, (x % y) as u64)
+}
+
+// Contract (C12), bounded: for n, d sign extensions of i32 values: div_rem / checked_div / checked_rem:
+// None (Err) <=> d = 0; otherwise Some(q), Some(r) with q*d + r = n, |r| < |d|, r = 0 or sign(r) =
+// sign(n) (truncated division - this pins q and r uniquely), verified by exact i128 arithmetic on the
+// results; wrapping_div / wrapping_rem return the same for d != 0.  Full-width pinned points: MIN / -1:
+// checked None, wrapping_div = MIN, wrapping_rem = 0; MIN / 1 = MIN; MAX / MAX = 1; MIN / MAX = -1 rem -1.
+// Stub: div::div_rem_word -> div_rem_word_def (see above).
+// @unit name=i256_divrem_small props=C12 kind=bounded bound=operands_in_i32_range_(plus_pinned_full-width_points) fns=i256::div_rem,i256::checked_div,i256::checked_rem,i256::wrapping_div,i256::wrapping_rem timeout=900 tier=thorough was_quick=1 confirmed=0
+#[kani::proof]
+#[kani::unwind(6)]
+#[kani::stub(crate::bigint::div::div_rem_word, div_rem_word_def)]
+fn i256_divrem_small() {
+    let (n, d): (i32, i32) = (kani::any(), kani::any());
+    let (x, y) = (i256::from_i128(n as i128), i256::from_i128(d as i128));
+    let (q, r) = (x.checked_div(y), x.checked_rem(y));
+    assert!(q.is_none() == (d == 0) && r.is_none() == (d == 0));
+    if d != 0 {
+        let (q, r) = (q.unwrap(), r.unwrap());
+        let (qv, rv) = (q.to_i128(), r.to_i128());
+        assert!(qv.is_some() && rv.is_some());
+        let (qv, rv, nv, dv) = (qv.unwrap(), rv.unwrap(), n as i128, d as i128);
+        assert!(qv >= -(1 << 31) && qv <= (1 << 31) && rv.abs() < dv.abs());
+        assert!(qv * dv + rv == nv && (rv == 0 || (rv < 0) == (nv < 0)));
+        assert!(x.wrapping_div(y) == q && x.wrapping_rem(y) == r);
+        assert!(CheckedDiv::checked_div(&x, &y) == Some(q) && CheckedRem::checked_rem(&x, &y) == Some(r));
+    }
+    kani::cover!(d != 0 && n < 0 && d > 1 && x.checked_rem(y) != Some(i256::ZERO));
+    kani::cover!(d < -1 && n > 1000);
+    kani::cover!(d == 0);
+}
+
+// Contract (C12): division, pinned full-width points (concrete operands; exercises the sign handling
+// and the Knuth path on known values): MIN / -1: checked None, wrapping_div = MIN, wrapping_rem = 0;
+// x / 0 = None; MIN / 1 = MIN rem 0; MAX / MAX = 1 rem 0; MIN / MAX = -1 rem -1; (2^200 + 5) / 2^100 =
+// 2^100 rem 5; -(2^200 + 5) / 2^100 = -(2^100) rem -5; (2^192 - 1) / (2^64 + 1): q*d + r = n checked by
+// wrapping_mul / wrapping_add on the (already specified) code; and the Knuth 'add back' case
+// ((B/2-1)B^3 + (B/2)B^2) / ((B/2)B^2 + 1) = B - 2 rem (B/2)B^2 - B + 2, B = 2^64 (branch reachability
+// confirmed with a temporary kani::cover! in div_rem_knuth, see REPORT.md).
+// Stub: div::div_rem_word -> div_rem_word_def.
+// @unit name=i256_div_pinned props=C12 kind=bounded bound=concrete_operands fns=i256::div_rem,i256::checked_div,i256::checked_rem,i256::wrapping_div,i256::wrapping_rem,div::div_rem,div::div_rem_knuth timeout=900 tier=thorough was_quick=1 confirmed=0
+#[kani::proof]
+#[kani::unwind(8)]
+#[kani::stub(crate::bigint::div::div_rem_word, div_rem_word_def)]
+fn i256_div_pinned() {
+    let m1 = i256::MINUS_ONE;
+    assert!(i256::MIN.checked_div(m1).is_none() && i256::MIN.checked_rem(m1).is_none());
+    assert!(i256::MIN.wrapping_div(m1) == i256::MIN && i256::MIN.wrapping_rem(m1) == i256::ZERO);
+    assert!(i256::MAX.checked_div(i256::ZERO).is_none() && i256::MAX.checked_rem(i256::ZERO).is_none());
+    assert!(i256::MIN.checked_div(i256::ONE) == Some(i256::MIN) && i256::MIN.checked_rem(i256::ONE) == Some(i256::ZERO));
+    assert!(i256::MAX.checked_div(i256::MAX) == Some(i256::ONE) && i256::MAX.checked_rem(i256::MAX) == Some(i256::ZERO));
+    assert!(i256::MIN.checked_div(i256::MAX) == Some(m1) && i256::MIN.checked_rem(i256::MAX) == Some(m1));
+    let n = i256 { low: 5, high: 1 << 72 };        // 2^200 + 5
+    let d = i256 { low: 1 << 100, high: 0 };       // 2^100
+    assert!(n.checked_div(d) == Some(d) && n.checked_rem(d) == Some(i256::from_i128(5)));
+    assert!(n.wrapping_neg().checked_div(d) == Some(d.wrapping_neg()) && n.wrapping_neg().checked_rem(d) == Some(i256::from_i128(-5)));
+    let n2 = i256 { low: u128::MAX, high: u64::MAX as i128 }; // 2^192 - 1
+    let d2 = i256 { low: (1 << 64) + 1, high: 0 };            // 2^64 + 1
+    let (q2, r2) = (n2.checked_div(d2).unwrap(), n2.checked_rem(d2).unwrap());
+    assert!(q2.wrapping_mul(d2).wrapping_add(r2) == n2 && r2 < d2 && !r2.is_negative());
+    // Knuth D "add back" case (3-digit divisor, first quotient estimate one too large):
+    // n = (B/2 - 1) B^3 + (B/2) B^2, d = (B/2) B^2 + 1 with B = 2^64: q = B - 2, r = (B/2) B^2 - B + 2
+    let n3 = i256 { low: 0, high: ((1u128 << 63) | (((1u128 << 63) - 1) << 64)) as i128 };
+    let d3 = i256 { low: 1, high: 1 << 63 };
+    assert!(n3.checked_div(d3) == Some(i256 { low: u64::MAX as u128 - 1, high: 0 }));
+    assert!(n3.checked_rem(d3) == Some(i256 { low: 2 | ((u64::MAX as u128) << 64), high: (1 << 63) - 1 }));
+    kani::cover!(q2.high == 0 && q2.low > 1 << 64);
+}
+
+// Contract (C12), bounded: checked_pow / wrapping_pow for bases that are sign extensions of i32 values
+// and each exponent e in {0, 1, 2, 3}: = the exact power in i128 (always representable), exp = 0 gives 1
+// (also 0^0).  Pinned: 2^255 overflows (checked None, wrapping = MIN), 2^254 and (-2)^255 = MIN are Some.
+// @unit name=i256_pow_small props=C12 kind=bounded bound=base_in_i32_range_exp<=3_(base_2:_exp_254,255) fns=i256::checked_pow,i256::wrapping_pow timeout=1500
+#[kani::proof]
+#[kani::unwind(10)]
+fn i256_pow_small() {
+    let a: i32 = kani::any();
+    let w = a as i128;
+    let x = i256::from_i128(w);
+    assert!(x.checked_pow(0) == Some(i256::ONE) && x.wrapping_pow(0) == i256::ONE);
+    assert!(x.checked_pow(1) == Some(x) && x.wrapping_pow(1) == x);
+    assert!(x.checked_pow(2) == Some(i256::from_i128(w * w)) && x.wrapping_pow(2) == i256::from_i128(w * w));
+    assert!(x.checked_pow(3) == Some(i256::from_i128(w * w * w)) && x.wrapping_pow(3) == i256::from_i128(w * w * w));
+    let two = i256::from_i128(2);
+    assert!(two.checked_pow(255).is_none() && two.wrapping_pow(255) == i256::MIN);
+    assert!(two.checked_pow(254) == Some(i256::ONE << 254u8));
+    assert!(two.wrapping_neg().checked_pow(255) == Some(i256::MIN));
+    kani::cover!(a < -1000);
+    kani::cover!(a == 0);
+}
+
+// Contract (C12): SaturatingMul: saturating_mul(a, b) = the exact product when checked_mul(a, b) is
+// Some (checked_mul is specified by i256_mul_small / i256_mul_pow2 and, unbounded, by the Verus unit),
+// else MAX if the operands have equal signs and MIN if they differ - for all 256-bit a, b.
+// @unit name=i256_saturating_mul props=C12 kind=complete fns=SaturatingMul<i256>::saturating_mul timeout=1500 tier=thorough was_quick=1 confirmed=0
+#[kani::proof]
+fn i256_saturating_mul() {
+    let (a, b) = (any_i256(), any_i256());
+    let s = a.saturating_mul(&b);
+    match a.checked_mul(b) {
+        Some(p) => assert!(s == p),
+        None => assert!(s == if a.is_negative() == b.is_negative() { i256::MAX } else { i256::MIN }),
+    }
+    kani::cover!(a.checked_mul(b).is_none() && a.is_negative() && !b.is_negative());
+    kani::cover!(a.checked_mul(b).is_none() && a.is_negative() && b.is_negative());
+    kani::cover!(a.checked_mul(b).is_some() && a.high != 0 && b.low > 1);
+}
